@@ -43,7 +43,7 @@ def run(tier, seed):
         v.sample(s)
     nt = v.counters.get('feat_two_non_identity_sorts', 0)
     if nt == 0 or v.counters.get('with_missing', 0) == 0:
-        raise MachineryError('vacuous run')
+        v.vacuous('vacuous run')
     cov = dict(states=out['run']['states'], transitions=out['run']['transitions'],
                traces_validated_against_impl=out['n'] * len(out['kinds']), evaluations=v.counters.get('evaluations', 0),
                distinct_nontrivial=nt, exhaustive=(tier == 'quick'),
